@@ -21,8 +21,8 @@ This module ties the model to py7zr and explores py7zr with the model and the se
 * two SevenZipFile objects extracting the same archive file at once, workers of both interleaved (FN 245);
 * an audit hook on `open`: every worker opens the archive itself, exactly once, by name;
 * which path runs (threads / caller) against select_mode (FN 243); output names against outnames (FN 244);
-* the colliding-names archive (a_0 | a | a) and the two-damaged-folders archive of the _refuted theorems,
-  replayed on py7zr under the schedules of the Coq witnesses.
+* the archives with members a_0 | a | a and a | a | a_0 | a (output names collided before commit 5112351; now all
+  paths must agree under every order), and the two-damaged-folders archive of the Coq witness.
 
 Process runs are compared with two models: the code as it stands (mode 2: exception queue and factory products
 stay in the children -- the known findings) and the code after the proposed repair (mode 3 = threads); a tree
@@ -351,15 +351,15 @@ def build(case, d):
 
 
 def py_outnames(names):
-    """_extract l.577-583, in Python (the model's par_outnames is checked against it and both against py7zr)"""
+    """_extract's `fnames` loop, in Python (the model's par_outnames is checked against it and both against py7zr)"""
     seen, out = {}, []
     for n in names:
-        if n not in seen:
-            out.append(n)
-            seen[n] = 0
-        else:
-            out.append("%s_%d" % (n, seen[n]))
+        o = n
+        while o in seen:
+            o = "%s_%d" % (n, seen[n])
             seen[n] += 1
+        seen[o] = 0
+        out.append(o)
     return out
 
 
@@ -997,51 +997,68 @@ def explore_two(case, path, lay, target, ref, pref, refops, ws, onames, outn, mo
 
 # ------------------------------------------------------------------ special cases
 def explore_collision(model, rec, workdir):
-    """members a_0 | a | a in three folders: the second `a` is extracted as a_0, the first member's name"""
-    A, B, C = b"A" * 20, b"bbbb", b"cc"
-    case = {"folders": [{"chain": "copy", "members": [["a_0", A.hex()]]}, {"chain": "copy", "members": [["a", B.hex()]]},
-                        {"chain": "copy", "members": [["a", C.hex()]]}], "limit": 64}
-    path, lay = build(case, workdir)
-    outn = py_outnames(lay["names"])
-    mo = [bytes(x).decode() for x in model.call("par_outnames", [n.encode() for n in lay["names"]])]
-    ref = extract_controlled(path, lay, case["limit"], [], "file", workdir, src="bytesio")
-    rec.count(("collision", "names", tuple(outn)), nontrivial=True)
-    if mo != outn or len(set(outn)) == len(outn):
-        rec.violation("output names of a_0,a,a: model %r, transcription %r" % (mo, outn), {"kind": "outnames", "case": case},
-                      concrete=False, match_keys={"kind": "outnames-model"})
-        return
-    onames = sorted(set(outn))
-    oid = {n: i for i, n in enumerate(onames)}
-    ws = [[[0, oid["a_0"]], [1, oid["a_0"], list(A)]], [[0, oid["a"]], [1, oid["a"], list(B)]], [[0, oid["a_0"]], [1, oid["a_0"], list(C)]]]
-    if model.call("par_disjoint", ws) != 0:
-        rec.violation("model: colliding workers reported disjoint", {"kind": "collision"}, concrete=False,
+    """members a_0 | a | a (and a | a | a_0 | a) in separate folders: before commit 5112351 the second `a` was
+    extracted as a_0, the first member's output, by another worker (the witness of the former
+    output-path-collision-race).  Now every member has its own output and all paths must agree under every order."""
+    A, B, C, D = b"A" * 20, b"bbbb", b"cc", b"dddddd"
+    for names, datas in ((["a_0", "a", "a"], [A, B, C]), (["a", "a", "a_0", "a"], [B, C, A, D])):
+        case = {"folders": [{"chain": "copy", "members": [[n, d.hex()]]} for n, d in zip(names, datas)], "limit": 8}
+        sub = os.path.join(workdir, "c%d" % len(names))
+        os.makedirs(sub)
+        path, lay = build(case, sub)
+        outn = py_outnames(lay["names"])
+        mo = [bytes(x).decode() for x in model.call("par_outnames", [n.encode() for n in lay["names"]])]
+        rec.count(("collision", "names", tuple(outn)), nontrivial=True)
+        if mo != outn:
+            rec.violation("output names of %r: model %r, transcription %r" % (names, mo, outn), {"kind": "outnames", "case": case},
+                          concrete=False, match_keys={"kind": "outnames-model"})
+            return
+        want = dict(zip(outn, datas))
+        onames = sorted(set(outn))
+        oid = {n: i for i, n in enumerate(onames)}
+        nf = len(names)
+        for target in ("file", "mem"):
+            ref = reference(case, path, lay, sub, target)
+            ws = model_workers(case, lay, ref["ops"], {}, ref["ops"], oid)
+            counts = {f: len(ref["ops"][f]) for f in range(nf)}
+            orders = [[k for k in sorted(counts) for _ in range(counts[k])], [k for k in reversed(sorted(counts)) for _ in range(counts[k])]]
+            rr, rem = [], dict(counts)
+            while any(rem.values()):
+                for k in (0, nf - 1) + tuple(range(1, nf - 1)):
+                    if rem[k]:
+                        rr.append(k)
+                        rem[k] -= 1
+            orders.append(rr)
+            if len(set(outn)) != len(outn) or ref["result"] != ["ok"] or ref["outs"] != want or model.call("par_disjoint", ws) != 1:
+                rec.violation("members named %r in separate folders: output names %r, sequential path %r %r" % (
+                    names, outn, ref["result"], hexouts(ref["outs"])), {"kind": "sequential", "case": case, "target": target},
+                    match_keys={"kind": "output-path-collision-race", "path": "sequential"})
+                return
+            for order in orders:
+                r = extract_controlled(path, lay, case["limit"], order, target, sub)
+                rec.count(("collision", tuple(names), target, tuple(order)), nontrivial=True)
+                rp = {"kind": "threads", "case": case, "target": target, "order": order}
+                if r["run"].problems:
+                    rec.violation("colliding-names case: scheduler: %s" % r["run"].problems[:2], rp,
+                                  match_keys={"kind": "scheduler-problem"})
+                    return
+                if r["result"] != ["ok"] or r["outs"] != want:
+                    rec.violation("members named %r in separate folders, order %r: threads leave %r %r, the sequential path %r" % (
+                        names, order, r["result"], hexouts(r["outs"]), hexouts(ref["outs"])), rp,
+                        match_keys={"kind": "output-path-collision-race"})
+                    return
+                m = model.call("par_extract", [1, 0 if target == "file" else 1, model_sched(r["run"].trace), [], ws, len(onames)])
+                if outs_from_model(m[0], onames) != r["outs"] or res_from_model(m[1]) != ["ok"]:
+                    rec.violation("colliding-names case, order %r: model says %r, py7zr %r" % (
+                        order, hexouts(outs_from_model(m[0], onames)), hexouts(r["outs"])), rp, concrete=False,
+                        match_keys={"kind": "model-disagrees", "path": "collision"})
+                    return
+    # the model fact kept as C13_disjointness_needed: two workers on one output ARE schedule dependent
+    ws = [[[0, 0], [1, 0, [65, 65, 65]]], [[0, 0], [1, 0, [99]]]]
+    got = [model.call("par_run", [o, ws, 1])[0] for o in ([0, 0, 1, 1], [1, 1, 0, 0], [0, 1, 0, 1])]
+    if model.call("par_disjoint", ws) != 0 or got != [[[[99]]], [[[65, 65, 65]]], [[[99, 65, 65]]]]:
+        rec.violation("model: shared-output witness computes %r" % (got,), {"kind": "collision"}, concrete=False,
                       match_keys={"kind": "model-disagrees", "path": "collision"})
-    seen = {}
-    for order in ([0, 0, 1, 1, 2, 2], [2, 2, 1, 1, 0, 0], [0, 2, 0, 2, 1, 1], [2, 0, 2, 0, 1, 1], [0, 2, 2, 0, 1, 1]):
-        r = extract_controlled(path, lay, case["limit"], order, "file", workdir)
-        rec.count(("collision", tuple(order)), nontrivial=True)
-        rp = {"kind": "collision", "case": case, "order": order}
-        if r["run"].problems:
-            rec.violation("collision case: scheduler: %s" % r["run"].problems[:2], rp, match_keys={"kind": "scheduler-problem"})
-            return
-        m = model.call("par_extract", [1, 0, model_sched(r["run"].trace), [], ws, len(onames)])
-        m_outs = outs_from_model(m[0], onames)
-        if m_outs != r["outs"] or r["result"] != ["ok"]:
-            rec.violation("colliding outputs, order %r: model says %r, py7zr %r %r" % (order, hexouts(m_outs), r["result"],
-                                                                                    hexouts(r["outs"])), rp, concrete=False,
-                          match_keys={"kind": "model-disagrees", "path": "collision"})
-            return
-        seen[tuple(order)] = r["outs"].get("a_0")
-    diff = {k: v for k, v in seen.items() if v != ref["outs"].get("a_0")}
-    if diff:
-        k = sorted(diff)[0]
-        mixed = [o for o, v in seen.items() if v not in (A, C)]
-        rec.violation("members named a_0 | a | a in three folders: the second `a` is written to a_0, the first member's "
-                      "output, by a different worker: sequential path leaves %r, threads leave %s%s" % (
-                          ref["outs"].get("a_0"), sorted(set(repr(v) for v in seen.values())),
-                          " (a mixture of both members under order %r)" % (mixed[0],) if mixed else ""),
-                      {"kind": "collision", "case": case, "order": list(k)},
-                      match_keys={"kind": "output-path-collision-race"})
 
 
 def explore_two_damaged(model, rec, workdir):
